@@ -606,7 +606,8 @@ def history_pool(system, seed):
                   u0=np.array([0.0, w1 * 1.0, 0.0, 0, 0, w1]))
     B = RigidBody(2.0, np.diag([0.3, 0.1, 0.2]), q0=np.concatenate([[0.0, 2.0, 0], zquat(-0.7 + 0.3 * w[3])]),
                   u0=np.array([-2.0 * w2, 0.0, 0.0, 0, 0, w2]))
-    P = PointMass(0.7, q0=np.array([0.3 + 0.2 * w[4], -0.2, 0.5]), u0=0.5 * w[5:8])
+    # a third contribution with the SAME name as the two bodies (names are user-assignable): collisions of collisions
+    P = PointMass(0.7, q0=np.array([0.3 + 0.2 * w[4], -0.2, 0.5]), u0=0.5 * w[5:8], name="rigid_body")
     R = Revolute(A, B, axis=2, r_OJ0=np.zeros(3), A_IJ0=np.eye(3))
     F = Force(np.array([0.3, -1.1, 2.0]) * (1 + 0.2 * w[0]), A, B_r_CP=np.array([0.1, -0.2, 0.3]))
     C = Sphere2Plane(system.origin, P, mu=0.3, r=0.1, e_N=0.5, e_F=0.0)
